@@ -57,6 +57,11 @@ def record_fitpack():
     common.import_spowtd()
     import spowtd.spline as sp
     evals, splints = [], []
+    if not (hasattr(sp, "splev") and hasattr(sp, "splint")):
+        # the module no longer goes through FITPACK's splev / splint: nothing can be recorded, so the comparison with the
+        # model (which replays the recorded values) will report itself broken -- the property's own clauses are still decided
+        yield evals, splints
+        return
     real_splev, real_splint = sp.splev, sp.splint
 
     def splev(x, tck, der=0):
